@@ -438,6 +438,39 @@ pub fn check_line(
                 )
             }
         }
+        // the help flag given twice (the detailed form) wins just the same and describes the
+        // same level; probed at a third of the positions
+        if (p + argv.len()) % 3 == 0 {
+            let mut a2 = a.clone();
+            a2.insert(p, item.clone());
+            let out2 = run(&parser, &a2);
+            ctx.eval(1);
+            ctx.class("doubled-help-flag");
+            match (&out, &out2) {
+                (Outcome::Stdout { text: t1, .. }, Outcome::Stdout { text: t2, .. }) => {
+                    if t1.lines().next() != t2.lines().next() {
+                        return Verdict::fail(
+                            "doubled-help-flag-describes-another-level",
+                            format!("{:?}:\n{}\nvs single flag:\n{}", show_argv(&a2), t2, t1),
+                        );
+                    }
+                }
+                (_, Outcome::Panic { at, msg }) => {
+                    return Verdict::fail(format!("panic@{}", at), msg.clone())
+                }
+                (Outcome::Stdout { .. }, other) => {
+                    return Verdict::fail(
+                        if adj_left(p) {
+                            SIG_BEHIND_ADJACENT.to_owned()
+                        } else {
+                            format!("doubled-help-flag-loses/{}", other.class())
+                        },
+                        format!("{:?} -> {}", show_argv(&a2), other.short()),
+                    )
+                }
+                _ => {}
+            }
+        }
     }
 
     // version flag on clean lines
